@@ -125,12 +125,24 @@ def gen_n(rng, tier):
     return cases
 
 
+def _rt_scale_part():
+    """tens of thousands of ready fibers on one kernel thread (run-queue lengths beyond 2^15 and
+    2^16): every one of them must get to run - C02's scale part, re-run here"""
+    def gen(rng, tier):
+        import importlib
+        m = importlib.import_module("specs_c02")
+        src = [p for p in m.SPEC["C02"]["parts"] if p["name"] == "rt-scale"][0]
+        return src["gen"](rng, tier)
+    import vlib
+    return {"name": "rt-scale", "harness": "rtscale", "model": None, "runtime": True, "gen": gen, "post": vlib.oracle_note}
+
+
 SPEC = {
     "C10": {
         "parts": [{"name": "yield", "harness": "yield", "model": "Sched", "runtime": True, "gen": gen,
                    "nontrivial": lambda s: s["hist"].get("switch #", 0) >= 6},
                   {"name": "yieldN", "harness": "yield", "model": "SchedN", "runtime": True, "gen": gen_n,
-                   "nontrivial": lambda s: s["hist"].get("switch #", 0) >= 6}],
+                   "nontrivial": lambda s: s["hist"].get("switch #", 0) >= 6}, _rt_scale_part()],
         "rule": "cases = (script of 2-6 fibers mixing yield and yield-polling waits, or pairs of fibers that block and wake each other through 2-party barriers / semaphores next to yielders, or 70-130 yielders, 1-4 kernel threads, scheduler seed) from VERIF_SEED; distinct = different (script, sha1 of the access/switch sequence); non-trivial = at least 6 context switches",
         "trusted_base": [
             "run queues as lists (deque internals are C02's model Wsd)",
